@@ -94,8 +94,9 @@ class Output(BaseOutput):
             self.output_period = -self.output_period
         logger.info("  Output period: %s", str(self.output_period))
 
+        # One record for each output time start + k*period in [start, stop)
         self.num_records = int(
-            abs((timer.stop_time - timer.start_time) // self.output_period)
+            -(-(timer.stop_time - timer.start_time) // self.output_period)
         )
         # if not skip_initial:  # Add an initial record
         #     self.num_records += 1
